@@ -71,14 +71,22 @@ def check_state(rep, s, tag):
     top = [x for x in s.sends if not x[1]]
     inloop = [x for x in s.sends if x[1]]
     if req == OP['emit']:
-        rep.check(len(top) == 0, 'R02.2', 'emit|top-level' + tag, 'Emit handling transmits %d frame(s) outside the per-descriptor loop' % len(top), function='parseEmit', file=fnf)
+        # frames outside the descriptor loop: none - or the last descriptor taken out of the loop (a peeled final iteration):
+        # at most one Probe/Train followed by at most one ACK, after the loop; then no iteration inside the loop sends an ACK
+        tops = [st.canon(x[0].byte(17)) for x in top]
+        pt = (C(OP['probe']), C(OP['train']))
+        tail_ok = len(top) <= 2 and all(is_const(o) for o in tops) and \
+            (tops in ([], [C(OP['ack'])]) or (tops[0] in pt and (len(tops) == 1 or tops[1] == C(OP['ack']))))
+        rep.check(tail_ok, 'R02.2', 'emit|top-level' + tag, 'Emit handling transmits %d frame(s) outside the per-descriptor loop that are not one final descriptor (Probe/Train, then ACK): %s'
+                  % (len(top), [short(o) for o in tops]), function='parseEmit', file=fnf)
         # per iteration trace: count sends in each iteration variant
         from .frame_common import effects
         for e in st.trace:
             if e[0] == 'loop':
                 for it in e[2]:
                     n = sum(1 for x in it if x[0] == 'send')
-                    rep.check(n <= 2, 'R02.2', 'emit|per-iteration' + tag, 'one Emit descriptor makes the responder transmit %d frames' % n, function='sendProbeMsg', file=fnf)
+                    rep.check(n <= (1 if top else 2), 'R02.2', 'emit|per-iteration' + tag, 'one Emit descriptor makes the responder transmit %d frames%s'
+                              % (n, ' although the final descriptor and its ACK are sent after the loop' if top else ''), function='sendProbeMsg', file=fnf)
     else:
         rep.check(len(s.sends) <= 1 and not inloop, 'R02.2', '%s|count%s' % (OPNAME[req], tag),
                   'a single %s (ToS %s) is answered by %d frames%s' % (OPNAME[req], s.tos, len(s.sends), ' (inside a loop)' if inloop else ''),
